@@ -20,13 +20,14 @@ from pv.runner import Res
 ID = "C14"
 RULE = ("all states of a 2-object universe (p/1, q/2, z/0; f/1, g/0 over 3 values; 3456 states) each built along a "
         "route chosen by its index (problem parser, trajectory parser, direct construction in permuted insertion "
-        "order, copy, successor of a neighbouring state), compared pairwise in blocks (all ordered pairs of each "
+        "order, copy, successor of a neighbouring state, facts additionally stored under their arguments' own subtype, a "
+        "neighbouring state read once and then edited in place through its public containers), compared pairwise in blocks (all ordered pairs of each "
         "block), plus random larger states over a 3-object universe with a binary fluent, values of 1-15 significant digits and magnitudes 1e-14..1e21 (pairs also one relative step of 1e-3..1e-13 apart), -0.0 produced by an effect "
         "and repeated arguments.  Non-trivial = a pair that differs in exactly one fact or one value, or an equal "
         "pair built by two different routes.  Distinct by (state pair, routes).")
 ASSUMPTIONS = ["fluent values are floats (as every parser of the library produces them)"]
 
-DOM = {"name": "d", "typed": True, "types": [["t", "object"]], "constants": [],
+DOM = {"name": "d", "typed": True, "types": [["t", "object"], ["s", "t"]], "constants": [],
        "predicates": [["p", [["?a", "t"]]], ["q", [["?a", "t"], ["?b", "t"]]], ["z", []]],
        "functions": [["f", [["?a", "t"]]], ["g", []], ["h", [["?a", "t"], ["?b", "t"]]]],
        "actions": [
@@ -40,7 +41,7 @@ DOM = {"name": "d", "typed": True, "types": [["t", "object"]], "constants": [],
            {"name": "decg", "params": [], "pre": ["and"], "eff": ["and", ["decrease", ["g"], "1"]]},
            {"name": "zerog", "params": [], "pre": ["and"], "eff": ["and", ["assign", ["g"], ["*", "-1", "0"]]]},
        ]}
-ROUTES = ["problem", "trajectory", "direct", "direct-permuted", "copy", "successor"]
+ROUTES = ["problem", "trajectory", "direct", "direct-permuted", "copy", "successor", "direct-variants", "edited-in-place"]
 VALS = [Fraction(0), Fraction(1), Fraction(-3, 2)]
 
 _CACHE = {}
@@ -93,6 +94,37 @@ def build(route, st, objects, salt=0):
         return State(preds, {k: s.state_fluents[k] for k in reversed(list(s.state_fluents))}, is_init=False)
     if route == "copy":
         return build_state(domain, world, st).copy()
+    if route == "direct-variants":
+        # facts over objects of the subtype also stored under the object's own type (as add effects leave them)
+        return build_state(domain, world, st, variants=True)
+    if route == "edited-in-place":
+        # a neighbouring state, read once in every way (text, typed text, ==), then edited through its public
+        # containers into st
+        from pddl_plus_parser.models import GroundedPredicate
+        atoms = sorted(world.ground_atoms())
+        a = atoms[salt % len(atoms)]
+        fl = dict(st[1])
+        fkeys = sorted(fl)
+        fk = fkeys[salt % len(fkeys)] if fkeys else None
+        if fk is not None:
+            fl[fk] = fl[fk] + 1
+        nb = (frozenset(st[0] - {a}) if a in st[0] else frozenset(st[0] | {a}), fl)
+        s = build_state(domain, world, nb)
+        s.serialize(), s.typed_serialize(), str(s), s == s
+        lifted = domain.predicates[a[0]]
+        key = lifted.untyped_representation
+        if a in st[0]:
+            mapping = {param: obj for obj, param in zip(a[1:], lifted.signature)}
+            s.state_predicates.setdefault(key, set()).add(GroundedPredicate(name=a[0], signature=lifted.signature, object_mapping=mapping))
+        else:
+            for g in list(s.state_predicates.get(key, ())):
+                if tuple(g.grounded_objects) == tuple(a[1:]):
+                    s.state_predicates[key].discard(g)
+        if fk is not None:
+            for f in s.state_fluents.values():
+                if read_fluent_key(f) == fk:
+                    f.set_value(float(st[1][fk]))
+        return s
     if route == "successor":
         # reach st from a neighbour that differs in one fact (or one fluent step)
         atoms = sorted(world.ground_atoms())
@@ -106,6 +138,12 @@ def build(route, st, objects, salt=0):
         op = Operator(domain.actions[call], domain, list(a[1:]), objs)
         return op.apply(build_state(domain, world, nb))
     raise KeyError(route)
+
+
+def read_fluent_key(f):
+    """(name, objects...) of a library fluent, read from its printed form."""
+    tree = sexpr.read(f.state_representation)
+    return tuple(tree[1])
 
 
 def one_apart(s1, s2):
@@ -261,7 +299,7 @@ def gen_value(ch):
 
 
 def gen(ch, tier):
-    objects = [["a", "t"], ["b", "t"], ["c", "t"]]
+    objects = [["a", "t"], ["b", "s"], ["c", "t"]]
     world = pddl.World(DOM, objects)
     atoms, fls = sorted(world.ground_atoms()), sorted(world.ground_fluents())
     vals = [Fraction(x) for x in ["0", "1", "-1.5", "2.25", "1000000", "0.1", "-0.001", "3"]]
@@ -292,7 +330,7 @@ def gen(ch, tier):
 
 def chunk_cases(tier, chunk):
     part, nparts, block, nblocks = chunk
-    objects = [["a", "t"], ["b", "t"]]
+    objects = [["a", "t"], ["b", "s"]]
     for b in range(nblocks):
         if b % nparts != part:
             continue
